@@ -47,7 +47,8 @@ def plans(prop: str, tier: str) -> list[dict]:
         many = len(h.types) >= 3
         if tier == 'quick':
             out.append(dict(host=h, layouts='all',
-                            c=constants(h, depth=1, lens='0..3' if single else '0..2', mode='all' if single else 'class')))
+                            c=constants(h, depth=1, lens='0..3' if (single or h.init_types and len(h.init_types) == 1) else '0..2',
+                                        mode='all' if single else 'class')))
             if h.name in ('open.currencies', 'note.tags_links', 'open.meta', 'txn.postings'):
                 out.append(dict(host=h, layouts='rotate',
                                 c=constants(h, depth=2, lens='{2}', mode='class', idx=idx2, steps='{NoneV}', batch=1,
@@ -68,10 +69,12 @@ def plans(prop: str, tier: str) -> list[dict]:
 def _replay_chunk(arg: tuple) -> tuple[int, int, int, list]:
     hname, check, layouts, items = arg
     h = listhost.HOSTS[hname]
+    from checks import store_replay
     out = []
     steps = replays = drift = 0
     for k, s in items:
         beh = json.loads(s)
+        store_replay.set_load_factor([1000, 2, 3, 4][k % 4])      # edits straddle block boundaries in 3 of 4 replays
         for layout in (range(h.n_layouts) if layouts == 'all' else [k % h.n_layouts]):
             try:
                 r = listreplay.Replay(h, beh, layout, check=set(check))
@@ -84,6 +87,7 @@ def _replay_chunk(arg: tuple) -> tuple[int, int, int, list]:
                 continue
             for step, kind, fp, msg in f:
                 out.append((kind, fp, {'step': step, 'layout': layout, 'what': msg, 'behaviour': beh}, 0, layout))
+    store_replay.set_load_factor(1000)
     return replays, steps, drift, out
 
 
